@@ -61,9 +61,9 @@ def _purity(ctx, f, width_in, lead_shapes, bits=True, tag=""):
         ctx.ensure(f"{lname}.repeated_call_identical", again.ok and SP.all_eq(P(_first(again.value)), yp))
 
 
-def _multiblock(ctx, f, width_in, tag=""):
+def _multiblock(ctx, f, width_in, tag="", rows=2):
     """(B, 2*n): equal to per-block evaluation, or raises"""
-    x = ctx.bits(f"x{tag}_Bb", (2, 2 * width_in))
+    x = ctx.bits(f"x{tag}_Bb", (rows, 2 * width_in))
     out = ctx.call(f, x)
     if not out.ok:
         ctx.ensure("Bb.rejected_with_error_not_values", out.raised(ValueError, AssertionError, RuntimeError, IndexError, TypeError), note=repr(out.exc))
@@ -71,7 +71,7 @@ def _multiblock(ctx, f, width_in, tag=""):
     y = P(_first(out.value))
     xp = P(x)
     claims = []
-    for b in range(2):
+    for b in range(rows):
         parts = []
         for blk in range(2):
             single = ctx.call(f, ctx.tensor(xp[b][blk * width_in : (blk + 1) * width_in]))
@@ -166,7 +166,7 @@ def decoders(ctx, vcfg):
     dec = _decoder(kind, cfg)
     k, n = enc.generator_matrix.shape
     if lay == "Bb":
-        _multiblock(ctx, dec.forward, n)
+        _multiblock(ctx, dec.forward, n, rows=1)  # forking decoders: one row of two blocks keeps the path count at (paths per block)^2
     else:
         _purity(ctx, dec.forward, n, [l for l in LEADS if l[0] == lay])
 
